@@ -1,11 +1,50 @@
 (* C13 - markup parsing recovers the plain text and exactly the enclosed ranges.
-   Partial: the full round trip [parse_markup (render d) = meaning d] over marked-up documents is
-   not proved; what is proved is listed below, and the correspondence family 'markupdoc' compares the
-   implementation both with the model and - for structured documents - with the meaning the
-   generator knows by construction. *)
+   Proved: the round trip for documents built from plain text, escaped brackets and open / close /
+   close-all markers (any nesting, overlap and repetition, multi-byte text): the text comes back
+   and every closed marker yields one attribute whose range delimits exactly the text it enclosed,
+   "enclosed" being defined on the document (Proofs/MarkupDocProofs.v).
+   Partial: markers with properties, self-closing markers, the replacement markers, the character
+   prefix and blanks at the edges of the text are outside that theorem; the correspondence family
+   'markupdoc' compares the implementation both with the model and - for structured documents - with
+   the meaning the generator knows by construction. *)
 From Coq Require Import List ZArith NArith Bool.
-From YS Require Import Base.Sexp Yarn.Value Markup.LineParser Proofs.MarkupProofs.
+From YS Require Import Base.Sexp Yarn.Value Markup.LineParser Proofs.MarkupProofs Proofs.MarkupDocProofs.
 Import ListNotations.
+
+(* the round trip.  [render] writes the document, [text] is its plain text, [enclosed] computes -
+   on the document, without positions - the (name, enclosed text) of every closed marker (None: a
+   close marker without an open one, which must be an error). Hypotheses: names are identifiers that
+   are not replacement markers, text chunks contain neither '[' nor a backslash, the text has no
+   colon (no implicit character attribute) and no blank at either end (nothing to trim). *)
+Theorem C13_document_roundtrip : forall its,
+  Forall item_ok its ->
+  forallb (fun c => negb (N.eqb c 58)) (text its) = true ->
+  no_edge_space (text its) ->
+  match enclosed its [] [] with
+  | Some encl =>
+      exists attrs, parse_markup (render its) = Some (text its, attrs) /\
+        length attrs = length encl /\
+        (forall e, In e encl -> exists a, In a attrs /\ aname a = fst e /\ aprops a = [] /\
+                                          text_for_attribute (text its) a = Some (snd e)) /\
+        (forall a, In a attrs -> exists e, In e encl /\ aname a = fst e /\ aprops a = [] /\
+                                           text_for_attribute (text its) a = Some (snd e))
+  | None => parse_markup (render its) = None
+  end.
+Proof. exact markup_document_roundtrip. Qed.
+Print Assumptions C13_document_roundtrip.
+
+(* non-vacuity: nested, overlapping and repeated markers, a multi-byte character, an escaped
+   bracket, a close-all marker: the hypotheses hold and the enclosures are what one reads off *)
+Definition ex_doc : list item :=
+  [IText (STR "Start"); IOpen (STR "a"); IText (STR "x"); IOpen (STR "b"); IText [26085%N]; IBr 91%N;
+   IClose (STR "a"); IText (STR "z"); IOpen (STR "a"); IText (STR "w"); ICloseAll; IText (STR "End")].
+Example C13_example_hypotheses :
+  Forall item_ok ex_doc /\ forallb (fun c => negb (N.eqb c 58)) (text ex_doc) = true /\ no_edge_space (text ex_doc) /\
+  enclosed ex_doc [] [] = Some [(STR "a", STR "x" ++ [26085%N; 91%N]); (STR "b", [26085%N; 91%N] ++ STR "zw"); (STR "a", STR "w")].
+Proof.
+  split; [|split; [vm_compute; reflexivity|split; [split; vm_compute; reflexivity|vm_compute; reflexivity]]].
+  repeat constructor; try (vm_compute; (reflexivity || discriminate || (left; reflexivity))).
+Qed.
 
 (* text without markup, escapes or a character prefix is returned as it is, trimmed *)
 Theorem C13_plain_text_identity_partial : forall t, forallb plain_rune t = true ->
